@@ -226,8 +226,10 @@ class Excel_EAMTabulation(_EAMTabulationAbstractbase):
     """Write the tabulation to the file object `fp`.
 
     :param fp: File object into which data should be written."""
+    # Tabulate the model as it is now (see Excel_PairTabulation.write)
+    self._inner_tabulation = None
     wb = self.workbook
-    self._inner_tabulation.write(fp)
+    self._inner_tabulation._write_workbook(wb, fp)
 
   @classmethod
   def open_fp(cls, filename):
